@@ -574,6 +574,15 @@ class DataFileManager:
 
         # Convert path for PyArrow (adds bucket prefix for S3)
         arrow_path = self._get_arrow_path(file_path)
+        if (
+            isinstance(self.storage, LocalStorageBackend)
+            and arrow_path == self.storage._real_base_path()
+        ):
+            # '' / '.' / 'data/..' resolve to the table root itself; the writer's
+            # temp file would be created in its PARENT directory, outside the table.
+            raise ValueError(
+                f"Security Error: '{file_path}' resolves to the table root, not to a file inside it"
+            )
 
         # Convert records to Arrow table to compute statistics before writing
         lower_bounds = None
